@@ -61,7 +61,7 @@ MATRIX = _matrix()
 
 def streams(ctx):
     return [("matrix", len(MATRIX)), ("random", ctx.scale(1800, 10000)), ("shapes", ctx.scale(900, 6000)), ("big", ctx.scale(60, 800)), ("similar", ctx.scale(200, 2500)),
-            ("shared_ir", ctx.scale(300, 4000)), ("announced", ctx.scale(300, 3000))]
+            ("shared_ir", ctx.scale(300, 4000)), ("announced", ctx.scale(300, 3000)), ("none_defaults", ctx.scale(300, 3000))]
 
 
 def gen_case(ctx, stream, idx):
@@ -79,6 +79,16 @@ def gen_case(ctx, stream, idx):
                 d = p["default"]
                 p["doc"] = p["doc"].rstrip(".") + r.choice((". Defaults to %s", ", defaults to %s", ". Defaults to %s")) % (
                     '"%s"' % d if isinstance(d, str) else d)
+        return ir
+    if stream == "none_defaults":
+        # an explicit None default under every Optional shape (scalar, str, Literal, List, Union with None): the description
+        # distinguishes "no default" from "default None", and so must the emitted attribute / parameter / option
+        ir = irgen.rand_ir(r, nparams=r.randint(1, 4), type_kinds=("int", "str", "bool", "float"),
+                           default_kinds=("int", "str", "bool", "float", "absent"), suffix_defaults=True, with_return=False)
+        for nm in r.sample(("suffix", "mode", "tags", "level", "limit", "rate", "flag"), r.randint(1, 3)):
+            ir["params"][nm] = {"doc": irgen.rand_doc(r, stop=False), "default": irgen.NONE_STR, "typ": r.choice((
+                "Optional[str]", "Optional[int]", "Optional[float]", "Optional[bool]", "Optional[Literal['slow', 'fast']]",
+                "Optional[List[str]]", "Optional[List[int]]", "Union[str, int, None]", "Optional[Dict[str, int]]"))}
         return ir
     if stream == "similar":
         return irgen.similar_ir(r, type_kinds=CORE_T, default_kinds=CORE_D)
@@ -143,6 +153,11 @@ def dev(P, ctxd, fmt, cfg, field, how, tk, dk, what, src, mech=None):
                 dict(ctxd, format=fmt, options=cfg, emitted=src, field=field, how=how))
 
 
+def described(p):
+    """the described default as a Python value (the interface description spells a None default as a marker string)"""
+    return None if p["default"] == irgen.NONE_STR else p["default"]
+
+
 def check_class(P, ctxd, fmt, cfg, ir, ns, src):
     K = ns.get(ir["name"])
     if not inspect.isclass(K):
@@ -164,9 +179,9 @@ def check_class(P, ctxd, fmt, cfg, ir, ns, src):
         if "default" in p:
             if name not in K.__dict__:
                 dev(P, ctxd, fmt, cfg, "default", "lost", tk, dk, "%s has no class attribute" % name, src)
-            elif not same(K.__dict__[name], p["default"]):
+            elif not same(K.__dict__[name], described(p)):
                 dev(P, ctxd, fmt, cfg, "default", "differs", tk, dk, "%s = %r, described %r" % (
-                    name, K.__dict__[name], p["default"]), src)
+                    name, K.__dict__[name], described(p)), src)
         elif name in K.__dict__:
             dev(P, ctxd, fmt, cfg, "default", "gained", tk, dk, "%s = %r, none described" % (name, K.__dict__[name]),
                 src)
@@ -197,7 +212,7 @@ def check_function(P, ctxd, fmt, cfg, ir, ns, src):
         P.monitor("function.param.checked")
         if sp.kind != want_kind:
             dev(P, ctxd, fmt, cfg, "kind", "differs", tk, dk, "%s kind %s" % (name, sp.kind), src)
-        want_d = p["default"] if "default" in p else None  # absent == None (documented)
+        want_d = described(p) if "default" in p else None  # absent == None (documented)
         if sp.default is inspect.Parameter.empty:
             dev(P, ctxd, fmt, cfg, "default", "lost", tk, dk, "%s has no default, described %r" % (name, want_d), src)
         elif not same(sp.default, want_d):
@@ -280,7 +295,7 @@ def check_argparse(P, ctxd, fmt, cfg, ir, ns, src):
         elif a.choices is not None:
             dev(P, ctxd, fmt, cfg, "choices", "unexpected", tk, dk, "%s: choices=%r for %s" % (name, a.choices, typ), src)
         # default
-        want_d = p["default"] if "default" in p else None
+        want_d = described(p) if "default" in p else None
         if not same(a.default, want_d):
             dev(P, ctxd, fmt, cfg, "default", "differs", tk, dk, "%s: default=%r described %r" % (name, a.default, want_d),
                 src)
@@ -312,7 +327,7 @@ def check_argparse(P, ctxd, fmt, cfg, ir, ns, src):
         return dev(P, ctxd, fmt, cfg, "parse_args", "exits", "-", "-", "parse_args(%r) exited %r" % (argv, e.code), src)
     for a, (name, p) in zip(acts, ir["params"].items()):
         if not a.required:
-            want_d = p["default"] if "default" in p else None
+            want_d = described(p) if "default" in p else None
             if not same(getattr(got, name), want_d):
                 dev(P, ctxd, fmt, cfg, "parse_args", "default-differs", irgen.type_kind_of(p["typ"]),
                     irgen.default_kind_of(p), "%s: parsed %r described %r" % (name, getattr(got, name), want_d), src)
